@@ -35,7 +35,7 @@ def exc_outcome(e):
     cls = type(e).__name__
     if isinstance(e, NameError):
         # ptera's PteraNameError is a documented NameError subclass; messages differ
-        return ("raise", cls, getattr(e, "name", None) or "")
+        return ("raise", cls, getattr(e, "varname", None) or getattr(e, "name", None) or "")
     return ("raise", cls, norm(e.args))
 
 
